@@ -23,8 +23,9 @@ EXTENDS EnvFSMMC, Integers, Json, IOUtils
 
 Trace == ndJsonDeserialize(IOEnv.TRACE_FILE)
 
-VARIABLES l, scn, mst, holder, found, legal, sec, effects, nviol, ndrift
-tvars == <<l, scn, mst, holder, found, legal, sec, effects, nviol, ndrift>>
+VARIABLES l, scn, mst, holder, found, legal, sec, effects, nviol, ndrift, pend, dec
+tvars == <<l, scn, mst, holder, found, legal, sec, effects, nviol, ndrift, pend, dec>>
+Zero == [e \in Events |-> 0]
 
 Line == Trace[l]
 Has(f) == f \in DOMAIN Line
@@ -56,6 +57,7 @@ StepIdx(s) == CHOOSE i \in 1..5 : Steps[i] = s
 TReset ==
   /\ Line.ev = "Reset"
   /\ scn' = Line.scn /\ mst' = "PENDING" /\ holder' = "" /\ found' = "" /\ legal' = TRUE /\ sec' = 0 /\ effects' = 0
+  /\ pend' = Zero /\ dec' = Zero
   /\ UNCHANGED <<nviol, ndrift>>
 
 TAcquire ==
@@ -68,6 +70,10 @@ TAcquire ==
        + Soft("OneAtATime", holder = "", <<holder, Line.what>>)
        + Soft("Graph", Edge(mst, Line.st), <<mst, Line.st, "acquire">>)
        + Soft("DoneTerminal", mst = "DONE" => Line.st = "DONE", <<mst, Line.st, "acquire">>)
+  \* a control request of the API got the lock: from here on it sees the state its predecessors left
+  /\ IF Line.what \in Events /\ pend[Line.what] > 0
+       THEN pend' = [pend EXCEPT ![Line.what] = @ - 1] /\ dec' = [dec EXCEPT ![Line.what] = @ + 1]
+       ELSE UNCHANGED <<pend, dec>>
   /\ UNCHANGED <<scn, ndrift>>
 
 TRelease ==
@@ -79,18 +85,18 @@ TRelease ==
        + Soft("Graph", Edge(mst, Line.st), <<mst, Line.st, "release">>)
        + Soft("DoneTerminal", mst = "DONE" => Line.st = "DONE", <<mst, Line.st, "release">>)
        + Soft("IllegalHasNoEffect", ~legal => (effects = 0 /\ Line.st = found), <<Line.what, found, Line.st, effects>>)
-  /\ UNCHANGED <<scn, ndrift>>
+  /\ UNCHANGED <<scn, ndrift, pend, dec>>
 
 TSetState ==
   /\ Point("env.setstate")
   /\ Report(Line.to, "setstate")
-  /\ UNCHANGED <<scn, holder, found, legal, sec, effects, ndrift>>
+  /\ UNCHANGED <<scn, holder, found, legal, sec, effects, ndrift, pend, dec>>
 
 \* state read back right after the API's forced write
 TForce ==
   /\ Point("api.force.done")
   /\ Report(Line.st, "force")
-  /\ UNCHANGED <<scn, holder, found, legal, sec, effects, ndrift>>
+  /\ UNCHANGED <<scn, holder, found, legal, sec, effects, ndrift, pend, dec>>
 
 \* events published by the core: reported state + the step structure of the transition in progress
 TEnvEv ==
@@ -106,7 +112,7 @@ TEnvEv ==
         /\ IF Line.st \in States /\ Line.tx # "CREATE" /\ ~(Line.tx = "DESTROY" /\ Line.err)
              THEN Report(Line.st, "event")
              ELSE UNCHANGED <<mst, nviol>>
-  /\ UNCHANGED <<scn, holder, found, legal>>
+  /\ UNCHANGED <<scn, holder, found, legal, pend, dec>>
 
 \* a hook started / a task command was sent: effects of the transition in progress
 TEffect ==
@@ -114,7 +120,7 @@ TEffect ==
   /\ effects' = IF holder # "" THEN effects + 1 ELSE effects
   \* (judged at once: a request that is not legal may never come back and release the lock)
   /\ nviol' = nviol + Soft("IllegalHasNoEffect", holder = "" \/ legal, <<holder, found, Line.ev>>)
-  /\ UNCHANGED <<scn, mst, holder, found, legal, sec, ndrift>>
+  /\ UNCHANGED <<scn, mst, holder, found, legal, sec, ndrift, pend, dec>>
 
 Dst(op) == IF op \in Events THEN Table[op].dst ELSE ""
 
@@ -127,14 +133,23 @@ TReply ==
                 [] Line.code = "Aborted" -> mst \in {"ERROR", "DONE"}
                 [] OTHER -> TRUE,
               <<Line.op, Line.code, Line.st, mst>>)
-  /\ UNCHANGED <<scn, mst, holder, found, legal, sec, effects, ndrift>>
+       \* "each one seeing the state left by the previous one": a request the API answers on its merits (OK or Aborted) was
+       \* judged inside its own lock section, i.e. after every transition or teardown that was in progress when it arrived
+       + Soft("SerialView", (Line.op \in Events /\ Line.code \in {"OK", "Aborted"}) => dec[Line.op] > 0, <<Line.op, Line.code, Line.st, mst>>)
+  /\ dec' = IF Line.op \in Events /\ dec[Line.op] > 0 THEN [dec EXCEPT ![Line.op] = @ - 1] ELSE dec
+  /\ UNCHANGED <<scn, mst, holder, found, legal, sec, effects, ndrift, pend>>
+
+TApi ==
+  /\ Line.ev = "Api" /\ Line.call = "control" /\ IsEnv
+  /\ pend' = IF Line.op \in Events THEN [pend EXCEPT ![Line.op] = @ + 1] ELSE pend
+  /\ UNCHANGED <<scn, mst, holder, found, legal, sec, effects, nviol, ndrift, dec>>
 
 TOther ==
   /\ ~(Line.ev = "Reset")
   /\ ~Point("env.lock.acquired") /\ ~Point("env.lock.release") /\ ~Point("env.setstate") /\ ~Point("api.force.done")
   /\ ~(Line.ev = "EnvEv" /\ IsEnv) /\ ~(Line.ev \in {"HookStart", "MMessage"} /\ IsEnv) /\ ~Point("env.teardown.phase")
-  /\ ~(Line.ev = "ApiReply" /\ Line.call = "control" /\ IsEnv)
-  /\ UNCHANGED <<scn, mst, holder, found, legal, sec, effects, nviol, ndrift>>
+  /\ ~(Line.ev = "ApiReply" /\ Line.call = "control" /\ IsEnv) /\ ~(Line.ev = "Api" /\ Line.call = "control" /\ IsEnv)
+  /\ UNCHANGED <<scn, mst, holder, found, legal, sec, effects, nviol, ndrift, pend, dec>>
 
 TraceInit ==
   \* EnvFSM's own variables are not used here (only its constants and operators): pin them
@@ -146,11 +161,11 @@ TraceInit ==
   /\ tdforce = [p \in Procs |-> FALSE] /\ reply = [p \in Procs |-> NoReply]
   /\ txn = [p \in Procs |-> 0] /\ eff = {} /\ illegal = {}
   /\ l = 1 /\ scn = -1 /\ mst = "PENDING" /\ holder = "" /\ found = "" /\ legal = TRUE /\ sec = 0 /\ effects = 0
-  /\ nviol = 0 /\ ndrift = 0
+  /\ nviol = 0 /\ ndrift = 0 /\ pend = Zero /\ dec = Zero
 
 TraceNext ==
   /\ l <= Len(Trace)
-  /\ (TReset \/ TAcquire \/ TRelease \/ TSetState \/ TForce \/ TEnvEv \/ TEffect \/ TReply \/ TOther)
+  /\ (TReset \/ TAcquire \/ TRelease \/ TSetState \/ TForce \/ TEnvEv \/ TEffect \/ TReply \/ TApi \/ TOther)
   /\ l' = l + 1
   /\ UNCHANGED vars
 
